@@ -308,6 +308,16 @@ def _run(ctx):
                 okf = False
         ctx.ob("C06.bulk", "first error returned", okf, "a failing S::try_from makes the function return that error",
                site=ctx.site_of(F, f["def"]))
+        # in order, from the first: the shapes are visited by one forward pass over the input (so the first failing one is reported)
+        from .C20 import REORDER
+        bad = sorted(set(mir.callee_decl(t) for g in [f] + [h for h in F.identity_fns() if h["def"].startswith(f["def"] + "::{closure")]
+                         for b, t in mir.calls(g) if mir.callee_decl(t) in REORDER))
+        loops = [e for p in ps for e in absint.flat_effects(p.eff) if e[0] == 'loop']
+        fwd = bool(loops) and all(absint.term_str(lp[2].get('iter')) in ('into_iter(arg1)', 'iter(arg1)', 'iter(*arg1)') for lp in loops)
+        ctx.ob("C06.bulk", "one forward pass", not bad and fwd,
+               ("uses %s" % bad) if bad else ("loops over %s" % sorted(set(absint.term_str(lp[2].get('iter'))[:50] for lp in loops)) if not fwd
+                                               else "a single loop over the input vector, first to last, no reordering adaptor"),
+               site=ctx.site_of(F, f["def"]), key="C06.bulk|forward")
 
 
     # --- C06.forward --------------------------------------------------------------------------
